@@ -716,6 +716,10 @@ def c14(ctx):
              soil={"type": "SandyLoam"}, crop={"name": "Maize", "planting": "05/01", "overrides": {}},
              irr={"method": 0}, co2={"constant": False, "series": [[1980, 338.0], [1983, 343.0], [1986, 347.5], [1989, 353.0], [1992, 356.5], [1995, 361.0]]},
              off_season=False, _ext_days=1500),
+        # "constant concentration" without a value = the first simulated year's, whatever the end date
+        dict(id=14903, start="1984/05/01", end="1986/12/30", weather={"kind": "file", "name": "champion_climate.txt"},
+             soil={"type": "Loam"}, crop={"name": "Maize", "planting": "05/01", "overrides": {}},
+             irr={"method": 0}, co2={"constant": True, "current": 0.0}, off_season=False, _ext_days=1500),
     ] + scs
     for sc in scs:
         objs = S.build_objects(sc)
@@ -1526,6 +1530,7 @@ def c18(ctx):
                     soil={"type": "custom", "dz": [0.1] * 18, "texture": [[1.0, 40, 30, 2.0, 100]]}))
     scs.append(dict(base, id="c18-paddy-25", iwc=S.random_iwc(rng, 2), soil={"type": "Paddy", "dz": [0.1] * 25}))
     # three layers whose inner boundaries fall on compartment bottoms
+    base = dict(base, crop={"name": "Tomato", "planting": "05/01", "overrides": {}})    # shallow roots: the grid is not deepened
     scs.append(dict(base, id="c18-three-layers", iwc={"wc_type": "Prop", "method": "Layer", "depth_layer": [1, 2, 3], "value": ["FC", "WP", "SAT"]},
                     soil={"type": "custom", "dz": [0.1] * 12,
                           "layers": [[0.5, 0.10, 0.22, 0.41, 1200, 100], [0.4, 0.23, 0.39, 0.5, 125, 100], [0.3, 0.32, 0.50, 0.54, 15, 100]]}))
